@@ -32,7 +32,10 @@ Inductive phase :=
 | Acked        (* the reader has processed the CONNACK (serve.go:57-66) *)
 | Ended.       (* the reader has returned / the transport is closed; nothing is read any more *)
 
-Record client := { c_handler : hval; c_phase : phase }.
+(* c_stored: subBuffer of this client's serve() (serve.go:52, a LOCAL of serve: it lives as long as the
+   connection object): QoS 2 messages received, waiting for their PUBREL. The handler component is
+   what c.handler was when the PUBLISH arrived; /repo does not look at it (used by a wrong variant) *)
+Record client := { c_handler : hval; c_phase : phase; c_stored : list (N * hval) }.
 
 Record sys := {
   rc_handler : hval;          (* RetryClient.handler *)
@@ -59,7 +62,15 @@ Inductive label :=
                                   Legal in /repo because the reader takes its snapshot of c.handler and
                                   RELEASES c.mu before the call (serve.go:77-82, 86-91, 132-137) *)
 | R_connect_return (k : nat)   (* RetryClient.Connect returns to its caller (after CONNACK) *)
-| R_end (k : nat).             (* connection k ends (peer close, Close, error): reader gone *)
+| R_end (k : nat)              (* connection k ends (peer close, Close, error): reader gone *)
+| B_q2_publish (k : nat) (m : N) (dup : bool)
+                               (* reader of k processes a QoS 2 PUBLISH (first transmission, or the DUP=1
+                                  retransmission a broker sends behind the CONNACK of a resumed session):
+                                  PUBREC, message kept in k's subBuffer; no hand-over yet (serve.go:95-102) *)
+| B_q2_release (k : nat) (m : N).
+                               (* reader of k processes the PUBREL of a stored message m: reads k's handler
+                                  AT THAT MOMENT, hands over, PUBCOMP (serve.go:126-143). Enabled only if m
+                                  is stored on k. [B_inbound] with a QoS 2 message is the two in one step *)
 
 (* what the broker / the handlers can observe: message m, which arrived on connection k, was
    given to handler instance h (Some h) or to nobody (None: QoS 0 discarded, QoS 1/2 acknowledged
@@ -81,12 +92,36 @@ Record impl := {
   i_forward : bool;              (* Handle: if c.cli != nil { c.cli.Handle(handler) } *)
   i_install : install_mode;      (* Connect: cli.Handle(c.handler) before cli.Connect *)
   i_setclient_clears : bool;     (* SetClient: (wrongly) c.handler = nil *)
-  i_lock_through_callback : bool (* reader: (wrongly) holds BaseClient.mu.RLock while the handler runs *)
+  i_lock_through_callback : bool; (* reader: (wrongly) holds BaseClient.mu.RLock while the handler runs *)
+  i_q2_dup_not_stored : bool;     (* reader: (wrongly) does not store a QoS 2 PUBLISH that has DUP=1 *)
+  i_q2_handler_at_publish : bool  (* reader: (wrongly) hands a QoS 2 message to the handler read when the
+                                     PUBLISH arrived instead of the one registered at PUBREL time *)
 }.
 
 Definition faithful : impl :=
   {| i_store := StoreAlways; i_forward := true; i_install := InstallAtBegin; i_setclient_clears := false;
-     i_lock_through_callback := false |}.
+     i_lock_through_callback := false; i_q2_dup_not_stored := false; i_q2_handler_at_publish := false |}.
+
+(* the wrong implementations the proofs refute *)
+Definition v_base st fw ins cl : impl :=
+  {| i_store := st; i_forward := fw; i_install := ins; i_setclient_clears := cl;
+     i_lock_through_callback := false; i_q2_dup_not_stored := false; i_q2_handler_at_publish := false |}.
+Definition v_no_install := v_base StoreAlways true InstallNever false.
+Definition v_late_install := v_base StoreAlways true InstallAfterReturn false.
+Definition v_first_only := v_base StoreAlways true InstallFirstOnly false.
+Definition v_no_forward := v_base StoreAlways false InstallAtBegin false.
+Definition v_store_if_no_client := v_base StoreIfNoClient true InstallAtBegin false.
+Definition v_no_store := v_base StoreNever true InstallAtBegin false.
+Definition v_setclient_clears := v_base StoreAlways true InstallAtBegin true.
+Definition v_lock_through_callback : impl :=
+  {| i_store := StoreAlways; i_forward := true; i_install := InstallAtBegin; i_setclient_clears := false;
+     i_lock_through_callback := true; i_q2_dup_not_stored := false; i_q2_handler_at_publish := false |}.
+Definition v_q2_dup_not_stored : impl :=
+  {| i_store := StoreAlways; i_forward := true; i_install := InstallAtBegin; i_setclient_clears := false;
+     i_lock_through_callback := false; i_q2_dup_not_stored := true; i_q2_handler_at_publish := false |}.
+Definition v_q2_handler_at_publish : impl :=
+  {| i_store := StoreAlways; i_forward := true; i_install := InstallAtBegin; i_setclient_clears := false;
+     i_lock_through_callback := false; i_q2_dup_not_stored := false; i_q2_handler_at_publish := true |}.
 
 (* ---------- helpers ---------- *)
 Fixpoint upd (k : nat) (f : client -> client) (cs : list client) : list client :=
@@ -96,8 +131,26 @@ Fixpoint upd (k : nat) (f : client -> client) (cs : list client) : list client :
   | c :: r, S k' => c :: upd k' f r
   end.
 
-Definition set_handler (h : hval) (c : client) : client := {| c_handler := h; c_phase := c_phase c |}.
-Definition set_phase (p : phase) (c : client) : client := {| c_handler := c_handler c; c_phase := p |}.
+Definition set_handler (h : hval) (c : client) : client :=
+  {| c_handler := h; c_phase := c_phase c; c_stored := c_stored c |}.
+Definition set_phase (p : phase) (c : client) : client :=
+  {| c_handler := c_handler c; c_phase := p; c_stored := c_stored c |}.
+
+(* subBuffer: map[uint16]*Message *)
+Fixpoint sb_lookup (m : N) (l : list (N * hval)) : option hval :=
+  match l with
+  | [] => None
+  | (x, h) :: r => if N.eqb x m then Some h else sb_lookup m r
+  end.
+Fixpoint sb_remove (m : N) (l : list (N * hval)) : list (N * hval) :=
+  match l with
+  | [] => []
+  | (x, h) :: r => if N.eqb x m then sb_remove m r else (x, h) :: sb_remove m r
+  end.
+Definition store (m : N) (c : client) : client :=
+  {| c_handler := c_handler c; c_phase := c_phase c; c_stored := (m, c_handler c) :: sb_remove m (c_stored c) |}.
+Definition unstore (m : N) (c : client) : client :=
+  {| c_handler := c_handler c; c_phase := c_phase c; c_stored := sb_remove m (c_stored c) |}.
 
 Definition is_fresh (p : phase) : bool := match p with Fresh => true | _ => false end.
 Definition is_installed (p : phase) : bool := match p with Installed => true | _ => false end.
@@ -143,7 +196,7 @@ Definition step_gen (v : impl) (s : sys) (l : label) : result :=
   match l with
   | U_handle h => Next (do_handle v s h) []
   | R_dial h0 =>
-      Next (with_clients s (clients s ++ [{| c_handler := h0; c_phase := Fresh |}])) []
+      Next (with_clients s (clients s ++ [{| c_handler := h0; c_phase := Fresh; c_stored := [] |}])) []
   | R_set_client k =>
       (* retryclient.go:276-284; contract (retryclient.go:60): the BaseClient must be unconnected *)
       match nth_error (clients s) k with
@@ -164,7 +217,7 @@ Definition step_gen (v : impl) (s : sys) (l : label) : result :=
               | InstallFirstOnly => if all_fresh (clients s) then rc_handler s else c_handler c
               | InstallAfterReturn | InstallNever => c_handler c
               end in
-          on_client s k is_fresh (fun c => {| c_handler := h' c; c_phase := Installed |}) no_events
+          on_client s k is_fresh (fun c => {| c_handler := h' c; c_phase := Installed; c_stored := c_stored c |}) no_events
       end
   | R_connect_start k => on_client s k is_installed (set_phase Reading) no_events
   | R_connack k => on_client s k is_reading (set_phase Acked) no_events
@@ -195,6 +248,19 @@ Definition step_gen (v : impl) (s : sys) (l : label) : result :=
                           | _ => c
                           end) no_events
   | R_end k => on_client s k (fun p => negb (is_ended p)) (set_phase Ended) no_events
+  | B_q2_publish k m dup =>
+      on_client s k reader_runs (fun c => if i_q2_dup_not_stored v && dup then c else store m c) no_events
+  | B_q2_release k m =>
+      match nth_error (clients s) k with
+      | Some c0 =>
+          match sb_lookup m (c_stored c0) with
+          | None => Disabled
+          | Some hp =>
+              on_client s k reader_runs (unstore m)
+                        (fun c => [Deliver k m (if i_q2_handler_at_publish v then hp else c_handler c)])
+          end
+      | None => Disabled
+      end
   end.
 
 Definition step : sys -> label -> result := step_gen faithful.
@@ -270,9 +336,13 @@ Fixpoint count_inbound (ls : list label) : nat :=
   | [] => O
   | B_inbound _ _ :: r => S (count_inbound r)
   | B_inbound_handle _ _ _ :: r => S (count_inbound r)
+  | B_q2_release _ _ :: r => S (count_inbound r)
   | _ :: r => count_inbound r
   end.
 
+(* (a hand-over is [B_inbound], [B_inbound_handle] or, for a QoS 2 message whose PUBLISH and PUBREL are
+   separate steps, [B_q2_release]: the spec speaks about the moment of the hand-over — for QoS 2 the
+   PUBREL — and ignores [B_q2_publish]) *)
 (* the delivery log a user is entitled to: every inbound message, whatever connection it arrives
    on and however many reconnects happened, goes to the handler registered by the latest Handle
    call before it. All R_* labels are ignored: reconnects are transparent. *)
@@ -281,6 +351,7 @@ Fixpoint spec_from (h : hval) (ls : list label) : list event :=
   | [] => []
   | U_handle h' :: r => spec_from h' r
   | B_inbound k m :: r => Deliver k m h :: spec_from h r
+  | B_q2_release k m :: r => Deliver k m h :: spec_from h r
   | B_inbound_handle k m h' :: r => Deliver k m h :: spec_from h' r
   | _ :: r => spec_from h r
   end.
@@ -294,6 +365,11 @@ Fixpoint spec_current_from (h : hval) (c : option nat) (ls : list label) : list 
   | U_handle h' :: r => spec_current_from h' c r
   | R_set_client k :: r => spec_current_from h (Some k) r
   | B_inbound k m :: r =>
+      (match c with
+       | Some k' => if Nat.eqb k k' then Some (Deliver k m h) else None
+       | None => None
+       end) :: spec_current_from h c r
+  | B_q2_release k m :: r =>
       (match c with
        | Some k' => if Nat.eqb k k' then Some (Deliver k m h) else None
        | None => None
@@ -353,6 +429,7 @@ Definition hist_step (t : hist) (l : label) : hist * list event :=
        | None => t
        end, [])
   | B_inbound k m => (t, [Deliver k m (entitled t k)])
+  | B_q2_release k m => (t, [Deliver k m (entitled t k)])
   | B_inbound_handle k m h => (hist_handle t h, [Deliver k m (entitled t k)])
   | _ => (t, [])
   end.
